@@ -120,7 +120,14 @@ func refParseArgs(args []string) refArgs {
 func c18Library(src string, name string, a refArgs) (stdout string, failed bool, errText string) {
 	w, log := &symio.Writer{}, &symio.Writer{}
 	f := &symio.File{Data: []byte(src), FileName: name}
-	p, err := bcl.ParseFile(f, bcl.OptOutput(w), bcl.OptLogger(log), bcl.OptDisasm(a.d), bcl.OptStats(a.s))
+	var p *bcl.Prog
+	var err error
+	if a.bload {
+		// the input is taken for a bytecode file
+		p, err = bcl.LoadProg(f, name, bcl.OptOutput(w), bcl.OptLogger(log), bcl.OptDisasm(a.d))
+	} else {
+		p, err = bcl.ParseFile(f, bcl.OptOutput(w), bcl.OptLogger(log), bcl.OptDisasm(a.d), bcl.OptStats(a.s))
+	}
 	if err != nil {
 		return w.String(), true, log.String() + err.Error() + "\n"
 	}
@@ -133,7 +140,7 @@ func c18Library(src string, name string, a refArgs) (stdout string, failed bool,
 	return w.String(), false, log.String()
 }
 
-var c18Flags = []string{"-d", "--disasm", "-t", "--trace", "-s", "--stats", "-dt", "-ts", "-sd", "-x", "--nope", "-d-"}
+var c18Flags = []string{"-d", "--disasm", "-t", "--trace", "-s", "--stats", "-dt", "-ts", "-sd", "-x", "--nope", "-d-", "-dts", "--", "--bload", "--bdump=x.bcb", "--bdumpx", "-dx"}
 
 // C18_Run: the tool prints what the library prints and exits 0 / 1 / 2.
 func C18_Run() {
